@@ -267,6 +267,23 @@ def u_arith(n, r):
             'print(fn_calc{n}(7, 2, 10), fn_calc{n}(3, 5, 1))'], {}
 
 
+def u_accumulate(n, r):
+    return ['def fn_stats{n}(par_xs{n}):',
+            '    var_total{n} = 0',
+            '    var_count{n} = 1',
+            '    var_step{n} = 2',
+            '    var_total{n} = var_total{n} + var_step{n}',
+            '    var_count{n} += var_step{n}',
+            '    if var_count{n} > 1:',
+            '        var_step{n} = var_step{n} * var_count{n}',
+            '    var_low{n} = var_count{n} - var_step{n}',
+            '    var_high{n} = var_total{n} * 2',
+            '    if var_low{n} < 0:',
+            '        var_low{n} = 0',
+            '    return [var_total{n}, var_count{n}, var_step{n}, var_low{n}, var_high{n}, len(par_xs{n})]',
+            'print(fn_stats{n}([1, 2]))'], {}
+
+
 # ---- multi-module units
 
 def m_import_module(n, r):
@@ -315,10 +332,29 @@ def m_submodule(n, r):
          'pkg_q{n}/mod_deep{n}.py': 'def fn_deep{n}(par_d{n}):\n    return par_d{n} ** 2\n'}
 
 
+def m_global_across(n, r):
+    return ['import mod_store{n}',
+            'print(mod_store{n}.fn_bump{n}(2), mod_store{n}.fn_bump{n}(5), mod_store{n}.var_tally{n})'], \
+        {'mod_store{n}.py': 'var_tally{n} = 0\ndef fn_bump{n}(par_n{n}):\n    global var_tally{n}\n'
+                            '    var_tally{n} += par_n{n}\n    return var_tally{n}\n'
+                            'def fn_reset{n}():\n    global var_tally{n}\n    var_tally{n} = 0\n'}
+
+
+def m_deep_package(n, r):
+    return ['from pkg_d{n}.pkg_sub{n}.mod_deep{n} import fn_deepval{n}',
+            'import pkg_d{n}',
+            'print(fn_deepval{n}(), pkg_d{n}.var_root{n})'], \
+        {'pkg_d{n}/__init__.py': 'var_root{n} = 3\n',
+         'pkg_d{n}/pkg_sub{n}/__init__.py': '',
+         'pkg_d{n}/pkg_sub{n}/mod_deep{n}.py': 'import pkg_d{n}\ndef fn_deepval{n}():\n'
+                                               '    return pkg_d{n}.var_root{n} + 1\n'}
+
+
 SINGLE = [u_function, u_class, u_inherit, u_closure_nonlocal, u_closure, u_comp_filter, u_comp, u_loop,
           u_try, u_lambda, u_generator, u_decorator, u_property, u_global, u_with, u_starargs, u_dicts,
-          u_walrus_while, u_method_chain, u_rebind_if, u_rebind_try, u_rebind_while, u_arith, u_arith]
-MULTI = [m_import_module, m_from_import, m_alias, m_reexport, m_keyword_across, m_submodule]
+          u_walrus_while, u_method_chain, u_rebind_if, u_rebind_try, u_rebind_while, u_arith, u_arith, u_accumulate, u_accumulate]
+MULTI = [m_import_module, m_from_import, m_alias, m_reexport, m_keyword_across, m_submodule,
+         m_global_across, m_deep_package]
 
 
 def generate(rnd, multi=True, nunits=None, in_function=False):
